@@ -96,7 +96,14 @@ TryPop == /\ Ev("TryPop") /\ ts # <<>>
                                     \* the generator's regions on its way out (generator.abort), running none of them
                                     \/ (ucls # "catchable" /\ Top.kind # "marker"))
           /\ ts' = PopTs /\ UNCHANGED <<isq, cs, api, saved, intr>>
-          /\ (IF Len(ms) > 1 /\ Len(ts) - 1 = ms[Len(ms)].base THEN ms' = SubSeq(ms, 1, Len(ms) - 1) ELSE ms' = ms)
+          \* the nested context of an iterator close ends with its base frame; a payload that is still travelling through Go frames
+          \* (gounw) goes on travelling in the enclosing context (e.g. an interrupt inside the finally block of an inner generator that is
+          \* closed because the outer generator is being closed)
+          /\ (IF Len(ms) > 1 /\ Len(ts) - 1 = ms[Len(ms)].base
+              THEN ms' = (LET outer == SubSeq(ms, 1, Len(ms) - 1) IN
+                          \* (an enclosing context that is itself unwinding keeps its own payload: errors of a close during unwinding are dropped)
+                          IF mode = "gounw" /\ outer[Len(outer)].m = "run" THEN [outer EXCEPT ![Len(outer)] = [@ EXCEPT !.m = "gounw", !.cls = ucls]] ELSE outer)
+              ELSE ms' = ms)
           /\ Agree
 LeaveTry == /\ Ev("LeaveTry") /\ mode = "run" /\ ts # <<>> /\ Top.kind = "region" /\ Top.f = 1 /\ Top.ph \in {"body", "catch"}
             /\ E.sp = Top.sp /\ E.gl = Top.gl
